@@ -534,9 +534,18 @@ theorem coreLoop_safe : ∀ (fuel : Nat) (s : Text) (line : Nat) (nets : List (T
             exact coreLoop_safe fuel rest line' nets (ms ++ m) (by omega) (by omega)
         · exact Safe.err _ _
 
-theorem fourSp_length_le : ∀ s : Text, (fourSp s).length ≤ s.length := by
-  intro s
-  fun_induction fourSp s <;> simp <;> omega
+theorem fourSpFrom_length_le : ∀ (s : Text) (k : Nat), (fourSpFrom k s).length ≤ k + s.length
+  | [], k => by simp [fourSpFrom]
+  | c :: r, k => by
+    unfold fourSpFrom
+    split
+    · split
+      · have := fourSpFrom_length_le r 0; simp; omega
+      · have := fourSpFrom_length_le r (k + 1); simp; omega
+    · have := fourSpFrom_length_le r 0; simp; omega
+
+theorem fourSp_length_le (s : Text) : (fourSp s).length ≤ s.length := by
+  have := fourSpFrom_length_le s 0; unfold fourSp; omega
 
 theorem normalise_length_le (s : Text) : (normalise s).length ≤ s.length := by
   unfold normalise dropCR
